@@ -30,6 +30,8 @@ package iso19794
 //@   ensures "stream-only-shrinks": 0 <= len(rd(r)) && len(rd(r)) <= old(len(rd(r)))
 //@   proves "image-fits-the-unread-data": result1 == nil ==> imageSize <= old(len(rd(r)))
 //@   allocbound old(len(rd(r))) + 1024
+//@   ensures fresh(result0)
+//@   assigns r
 //@   safety all
 
 //@ func parseImages
@@ -37,18 +39,24 @@ package iso19794
 //@   requires r != nil
 //@   ensures "every-image-or-error": result1 == nil ==> len(result0) == numImages && numImages <= 4
 //@   ensures result1 != nil ==> result0 == nil
-//@   loop 1 invariant 0 <= i && i <= numImages && numImages <= 4 && len(out) == numImages && r != nil
+//@   loop 1 invariant 0 <= i && i <= numImages && numImages <= 4 && len(out) == numImages && r != nil && fresh(out)
 //@   loop 1 decreases numImages - i
+//@   ensures fresh(result0)
+//@   assigns r
 //@   safety all
 
 //@ func ProcessISO19794
 //@   props C12 C19
 //@   ensures (result1 == nil) == (result0 != nil)
 //@   ensures "at-most-four-faces": result1 == nil ==> len(result0.Facial.Images) <= 4
+//@   ensures fresh(result0)
+//@   assigns nothing
 //@   safety all
 
 //@ func (ap ISO19794) Images
 //@   props C12 C19
 //@   ensures "one-image-per-parsed-face": len(result) == len(ap.Facial.Images)
-//@   loop 1 invariant len(out) == len(ap.Facial.Images)
+//@   loop 1 invariant len(out) == len(ap.Facial.Images) && fresh(out)
+//@   ensures fresh(result)
+//@   assigns nothing
 //@   safety all
